@@ -206,7 +206,7 @@ def tAddSorted : List TAct :=
 /-- the deferred closure of `deleteSorted` calls the stored unsubscribe function (`MarkUnsubscribed`) -/
 def tDeleteSorted : List TAct :=
   template [("defer func{", .deferFunc (tMark (inE 1))), ("lock s.mutex", .acts [.acq sM]),
-    ("defer unlock s.mutex", .deferred [.rel sM]),
+    ("defer unlock s.mutex", .deferred [.rel sM]), ("call s.elements.DeleteAndReturn", .acts (briefT (leaf 3))),
     ("call s.heaviestElement.Set", .acts (tDerived 1 [])), ("call s.lightestElement.Set", .acts (tDerived 2 []))]
     skel_sortedSet_deleteSorted
 
@@ -230,7 +230,8 @@ def tWgDone : List TAct :=
 
 def tEvictInner : List TAct :=
   template [("lock e.mutex", .acts [.acq eM]), ("defer unlock e.mutex", .deferred [.rel eM]),
-    ("call e.evictionEvents.Get", .acts (briefT (leaf 4))), ("call e.evictionEvents.Delete", .acts (briefT (leaf 4)))]
+    ("call e.evictionEvents.ForEachKey", .acts (briefT (leaf 4))),
+    ("call e.evictionEvents.DeleteAndReturn", .acts (briefT (leaf 4)))]
     skel_evictionState_evict
 
 def tEvict : List TAct :=
